@@ -206,6 +206,21 @@ def _q(x, base):
     return repr(x)
 
 
+def ask_sized(model, lines, limit=40000):
+    """ask_many in batches of at most `limit` request bytes: a request batch that fits the pipe buffer can never
+    block the writer, whatever the size of the replies, and few large batches mean few process switches."""
+    out, chunk, size = [], [], 0
+    for ln in lines:
+        if chunk and (size + len(ln) + 1 > limit or len(chunk) >= 500):
+            out.extend(model.ask_many(chunk, batch=len(chunk)))
+            chunk, size = [], 0
+        chunk.append(ln)
+        size += len(ln) + 1
+    if chunk:
+        out.extend(model.ask_many(chunk, batch=len(chunk)))
+    return out
+
+
 def run_impl(h):
     """Runs the history on pyais.  -> list of per-operation observations (dicts)."""
     e = env()
@@ -661,7 +676,7 @@ def check_histories(ctx, prop, hs, queries_only_for=('C14',), sample_every=401, 
     for p in e.problems[:3]:
         rep.disagree('H-tracker-reflection', {}, 'modelled attribute structure', p)
     e.problems.clear()
-    chunk = 24
+    chunk = 96
     shrunk = getattr(ctx, '_shrunk', None)
     if shrunk is None:
         shrunk = set()
@@ -678,9 +693,9 @@ def check_histories(ctx, prop, hs, queries_only_for=('C14',), sample_every=401, 
             for h in part:
                 rep.case(json.dumps(h, sort_keys=True), kind='no-model')
             continue
-        mrep = ctx.model.ask_many(mlines, batch=6)
+        mrep = ask_sized(ctx.model, mlines)
         flat = [ln for lines, _ in ol for ln in lines]
-        orep = ctx.model.ask_many(flat, batch=32)
+        orep = ask_sized(ctx.model, flat)
         pos = 0
         for h, a, mr, (lines, index) in zip(part, impls, mrep, ol):
             replies = orep[pos:pos + len(lines)]
@@ -724,7 +739,7 @@ def check_histories(ctx, prop, hs, queries_only_for=('C14',), sample_every=401, 
 def violations_of(model, prop, h):
     impl = run_impl(h)
     lines, index = oracle_lines(h, impl)
-    replies = model.ask_many(lines, batch=32)
+    replies = ask_sized(model, lines)
     return [b for b in evaluate(h, impl, lines, index, replies) if b[0] == prop]
 
 
@@ -941,7 +956,7 @@ def run_common(ctx, prop):
     hs = directed_histories(rng)
     if with_q:
         hs = [add_queries(h) for h in hs]
-    n = ctx.budget(300 if with_q else 500, 12000)
+    n = ctx.budget(300 if with_q else 500, 6000)
     for i in range(n):
         kind = 'broker' if (prop == 'C15' and i % 4 == 0) or i % 10 == 0 else ('ttl' if prop == 'C13' or i % 2 else 'mixed')
         hs.append(gen_history(rng, kind, with_queries=with_q))
@@ -1019,7 +1034,7 @@ def replay_common(ctx, prop, data):
     try:
         impl = run_impl(h)
         lines, index = oracle_lines(h, impl)
-        replies = model.ask_many(lines, batch=32)
+        replies = ask_sized(model, lines)
         bad = [b for b in evaluate(h, impl, lines, index, replies) if b[0] == prop]
     finally:
         if ctx.model is None:
